@@ -136,7 +136,9 @@ class C10(BaseCheck):
         if roll < 0.2:
             return {'class': 'wire', 'fmt': k.choice(['zinc', 'json']), 'ver': k.choice(VERSIONS[1:]),
                     'kind': k.choice(V3_KINDS), 'pos': k.choice(['gmeta', 'cmeta', 'cell', 'inlist', 'indict', 'nested', 'nested-meta']),
-                    'visit': [k.choice(VERSIONS[1:]) for _ in range(k.choice([0, 1, 2]))], 'ops': []}
+                    'visit': [k.choice(VERSIONS[1:]) for _ in range(k.choice([0, 1, 2]))], 'ops': [],
+                    # how the document reaches the reader: text, already-decoded JSON object, or one grid of a multi-grid text
+                    'api': k.choice(['text', 'text', 'obj', 'multi'])}
         if roll < 0.3:
             return {'class': 'scalar', 'ver': k.choice(VERSIONS[1:]), 'kind': k.choice(V3_KINDS),
                     'nest': k.choice(['none', 'inlist', 'indict']), 'ops': []}
@@ -580,13 +582,23 @@ class C10(BaseCheck):
         mode = hs.MODE_ZINC if fmt == 'zinc' else hs.MODE_JSON
         want = self.accepts(ver)
         viol = None
+        api = case.get('api', 'text')
         try:
-            g = hs.parse(text, mode=mode)
+            if api == 'obj' and fmt == 'json':
+                g = hs.parse(json.loads(text), mode=mode)
+            elif api == 'multi':
+                plain = 'ver:"3.0"\nz\n1\n' if fmt == 'zinc' else json.dumps({'meta': {'ver': '3.0'}, 'cols': [{'name': 'z'}], 'rows': [{'z': 'n:1'}]})
+                both = (plain + '\n' + text) if fmt == 'zinc' else '[%s,%s]' % (plain, text)
+                gs = hs.parse(both, mode=mode, single=False)
+                g = gs[1]
+            else:
+                g = hs.parse(text, mode=mode)
             got = True
             where = grid_has_v3(hs, g)
         except Exception as e:
             got = False
             exc = e
+        stats['api.%s' % api] = 1
         if got != want:
             if got:
                 viol = {'clause': 'reader-accepted', 'detail': {'fmt': fmt, 'version': ver, 'kind': kind, 'pos': pos,
